@@ -427,7 +427,28 @@ func racePass(ctx *core.Ctx, tier string) {
 	t0 := time.Now()
 	cmd := exec.Command(bin, "racebodies", reps)
 	cmd.Env = append(os.Environ(), "GORACE=log_path="+logp+" halt_on_error=0 history_size=3", "GOMAXPROCS=16")
-	out, err := cmd.CombinedOutput()
+	var outb strings.Builder
+	cmd.Stdout, cmd.Stderr = &outb, &outb
+	err := cmd.Start()
+	if err == nil {
+		done := make(chan error, 1)
+		go func() { done <- cmd.Wait() }()
+		limit := 5 * time.Minute
+		if tier == "thorough" {
+			limit = 20 * time.Minute
+		}
+		select {
+		case err = <-done:
+		case <-time.After(limit):
+			cmd.Process.Kill()
+			<-done
+			info["ran"] = true
+			info["timed_out_after_s"] = limit.Seconds()
+			ctx.Cap(fmt.Sprintf("race pass did not finish within %v (killed): a free-running deadlock or a very slow machine; the schedule half reports deadlocks deterministically", limit))
+			return
+		}
+	}
+	out := []byte(outb.String())
 	info["ran"] = true
 	info["wall_s"] = time.Since(t0).Seconds()
 	info["summary"] = strings.TrimSpace(lastLines(string(out), 3))
